@@ -244,17 +244,18 @@
     }
     // fi_items: String::from_utf8 / as_bytes / len and axiom_utf8 with utf8(s) := s.as_bytes(), valid_utf8(v) := std::str::from_utf8(v).is_ok():
     // from_utf8(v) is Ok(s) with utf8(s) == v exactly when v is valid, Err otherwise; len == number of bytes; strings with equal bytes are equal.
-    #[kani::proof]
-    #[kani::unwind(8)]
-    fn shim_string_utf8() {
-        let a: [u8; 4] = kani::any(); let n: usize = kani::any(); kani::assume(n <= 4);
-        let valid = core::str::from_utf8(&a[..n]).is_ok();
-        let r = String::from_utf8(a[..n].to_vec());
+    fn string_utf8_case<const N: usize>() {
+        let a: [u8; N] = kani::any();
+        let valid = core::str::from_utf8(&a).is_ok();
+        let r = String::from_utf8(a.to_vec());
         assert!(r.is_ok() == valid);
         if let Ok(s) = r {
-            assert!(s.len() == n);
-            let b = s.as_bytes(); assert!(b.len() == n);
-            let i: usize = kani::any(); if i < n { assert!(b[i] == a[i]); }
+            assert!(s.len() == N);
+            let b = s.as_bytes(); assert!(b.len() == N);
+            let i: usize = kani::any(); if i < N { assert!(b[i] == a[i]); }
             assert!(core::str::from_utf8(b).is_ok());          // valid_utf8(utf8(s))
         }
     }
+    #[kani::proof]
+    #[kani::unwind(8)]
+    fn shim_string_utf8() { string_utf8_case::<0>(); string_utf8_case::<1>(); string_utf8_case::<2>(); string_utf8_case::<3>(); string_utf8_case::<4>(); }
